@@ -10,6 +10,8 @@ import (
 	"bytes"
 	"context"
 	"crypto/sha256"
+	"crypto/tls"
+	"encoding/json"
 	"fmt"
 	"io"
 	"net"
@@ -32,7 +34,9 @@ import (
 
 	"github.com/kubewharf/kubegateway/cmd/kube-gateway/app"
 	proxyv1alpha1 "github.com/kubewharf/kubegateway/pkg/apis/proxy/v1alpha1"
+	tokenwebhook "github.com/kubewharf/kubegateway/pkg/gateway/authentication/token/webhook"
 	_ "github.com/kubewharf/kubegateway/pkg/gateway/controlplane" // scheme
+	"k8s.io/apiserver/pkg/authentication/request/bearertoken"
 	"verifharness/internal/ctlbox"
 )
 
@@ -59,16 +63,16 @@ type Seen struct {
 
 // Reply scripts the answer of a stub upstream for one request id.
 type Reply struct {
-	Status  int
-	Header  http.Header
-	Body    []byte
-	Chunks  int           // >1: body is written in that many flushed chunks
-	Hold    chan struct{} // if non-nil the handler waits for it (or for the request context) before answering
-	Stream  bool          // stream chunks every StreamEvery until Hold is closed or the context dies
-	Every   time.Duration
+	Status int
+	Header http.Header
+	Body   []byte
+	Chunks int           // >1: body is written in that many flushed chunks
+	Hold   chan struct{} // if non-nil the handler waits for it (or for the request context) before answering
+	Stream bool          // stream chunks every StreamEvery until Hold is closed or the context dies
+	Every  time.Duration
 	// Steps (with Stream): status and headers are written and flushed at once; then every value received from Steps
 	// is written as one flushed chunk (the harness decides when the upstream sends what); closing Hold ends the stream
-	Steps chan []byte
+	Steps   chan []byte
 	Reset   bool          // hijack and close the connection after writing headers + half the body
 	Upgrade string        // non-empty: an upgrade request is answered 101 with this protocol; Body is sent first, then every byte received is echoed XOR 0x5a
 	started chan struct{} // closed when the handler has started
@@ -86,6 +90,9 @@ type Upstream struct {
 	// healthHold: when it holds a channel, a /healthz probe is answered only after that channel is closed (the probe is
 	// "on the wire" meanwhile), then with the status in force at that moment
 	healthHold atomic.Value
+	// tokens: what this upstream's API server answers to TokenReviews (token -> user name; absent = not authenticated)
+	tokens  map[string]string
+	reviews []string // tokens it was asked to review, in order
 	mu      sync.Mutex
 	seen    map[string]*Seen
 	order   []string
@@ -159,6 +166,20 @@ func (p *Pool) Find(id string) []*Seen {
 // SetHealth sets the /healthz status of an upstream (200 healthy, 500 unhealthy, 0 hang up, -1 accept and never answer, -2 answer 200 and stall in the body).
 func (u *Upstream) SetHealth(status int) { atomic.StoreInt32(&u.healthy, int32(status)) }
 
+// SetTokens sets the bearer tokens this upstream's API server accepts (token -> user name).
+func (u *Upstream) SetTokens(t map[string]string) {
+	u.mu.Lock()
+	u.tokens, u.reviews = t, nil
+	u.mu.Unlock()
+}
+
+// Reviews returns the tokens this upstream was asked to review.
+func (u *Upstream) Reviews() []string {
+	u.mu.Lock()
+	defer u.mu.Unlock()
+	return append([]string{}, u.reviews...)
+}
+
 // SetHealthHold makes the stub keep probes unanswered until ch is closed (nil: answer at once).
 func (u *Upstream) SetHealthHold(ch chan struct{}) { u.healthHold.Store(&ch) }
 
@@ -223,6 +244,38 @@ func (u *Upstream) serve(w http.ResponseWriter, r *http.Request) {
 		}
 		w.WriteHeader(st)
 		_, _ = w.Write([]byte(body))
+		return
+	}
+	if r.Method == "POST" && strings.HasSuffix(r.URL.Path, "/tokenreviews") {
+		// the API server's answer to a TokenReview (what the gateway's multi-cluster token authenticator asks)
+		var tr struct {
+			APIVersion string `json:"apiVersion"`
+			Kind       string `json:"kind"`
+			Spec       struct {
+				Token string `json:"token"`
+			} `json:"spec"`
+			Status struct {
+				Authenticated bool `json:"authenticated"`
+				User          struct {
+					Username string `json:"username"`
+				} `json:"user"`
+			} `json:"status"`
+		}
+		b, _ := io.ReadAll(r.Body)
+		_ = json.Unmarshal(b, &tr)
+		u.mu.Lock()
+		u.reviews = append(u.reviews, tr.Spec.Token)
+		name, ok := u.tokens[tr.Spec.Token]
+		u.mu.Unlock()
+		tr.Kind = "TokenReview"
+		if tr.APIVersion == "" {
+			tr.APIVersion = "authentication.k8s.io/v1"
+		}
+		tr.Status.Authenticated, tr.Status.User.Username = ok, name
+		out, _ := json.Marshal(tr)
+		w.Header().Set("Content-Type", "application/json")
+		w.WriteHeader(201)
+		_, _ = w.Write(out)
 		return
 	}
 	id := r.Header.Get(IDHeader)
@@ -500,8 +553,18 @@ func (a authz) Authorize(ctx context.Context, attrs authorizer.Attributes) (auth
 	return f(attrs)
 }
 
+// SNIHeader: a request carrying this harness header is handed to the chain as if it had arrived on a TLS connection
+// whose handshake named that server (req.TLS.ServerName); the header itself is removed.
+const SNIHeader = "X-Verif-Sni"
+
+// NewGatewayWithTokenReviews is NewGateway with the gateway's REAL multi-cluster token-review authenticator (no caching)
+// instead of the scripted one: a bearer token is reviewed by the API server of the cluster the request's host names.
+func NewGatewayWithTokenReviews() *Gateway { return newGateway(true) }
+
 // NewGateway builds the chain around a fresh controller.
-func NewGateway() *Gateway {
+func NewGateway() *Gateway { return newGateway(false) }
+
+func newGateway(realTokenReviews bool) *Gateway {
 	g := &Gateway{Box: ctlbox.New(), tokens: map[string]Identity{}}
 	cfg := &genericapiserver.Config{}
 	cfg.Serializer = scheme.Codecs
@@ -510,6 +573,9 @@ func NewGateway() *Gateway {
 	cfg.RequestInfoResolver = genericapiserver.NewRequestInfoResolver(cfg)
 	cfg.HandlerChainWaitGroup = new(utilwaitgroup.SafeWaitGroup)
 	cfg.Authentication.Authenticator = authn{g}
+	if realTokenReviews {
+		cfg.Authentication.Authenticator = bearertoken.New(tokenwebhook.NewMultiClusterTokenReviewAuthenticator(g.Box.Controller, 0, 0, nil))
+	}
 	cfg.Authorization.Authorizer = authz{g}
 	apiHandler := http.HandlerFunc(func(w http.ResponseWriter, r *http.Request) {
 		w.WriteHeader(http.StatusTeapot)
@@ -523,6 +589,10 @@ func NewGateway() *Gateway {
 		g.mu.Unlock()
 		if outer != nil {
 			h = outer(chain)
+		}
+		if sni := r.Header.Get(SNIHeader); sni != "" {
+			r.Header.Del(SNIHeader)
+			r.TLS = &tls.ConnectionState{ServerName: sni, HandshakeComplete: true, Version: tls.VersionTLS12}
 		}
 		if r.Header.Get("X-Verif-Panic") != "" {
 			// outermost harness wrapper: the response writer panics on the first body write, the way a broken
